@@ -65,7 +65,8 @@ func c19RunCase(c *Ctx, raw []byte) string {
 	return c19Exec(c, cs)
 }
 
-func c19Exec(c *Ctx, cs c19Case) string {
+func c19Exec(c *Ctx, cs c19Case) (outcome string) {
+	defer c.guardCase("schema-validity", cs, &outcome)
 	ok, _ := c19V.valid(cs.Doc)
 	if !ok {
 		return "input-not-valid"
@@ -85,7 +86,7 @@ func c19Exec(c *Ctx, cs c19Case) string {
 		c.Violate(Violation{Oracle: "validity", Class: class, Detail: detail, Observed: tail(string(out), 400),
 			Features: map[string]string{"symptom": class, "sigx": sym, "opaque_ref": opaque}, Case: cs})
 	}
-	outcome := "valid:round-trip-ok"
+	outcome = "valid:round-trip-ok"
 	var sw spec.Swagger
 	if err := json.Unmarshal(cs.Doc, &sw); err != nil {
 		viol("valid-document-rejected", err.Error(), nil)
